@@ -235,6 +235,12 @@ def header(origin):
 #
 # Anything else raises Untranslatable (a broken obligation of the property, never a crash of the harness).
 
+LEAN_KEYWORDS = set("""include open end at from fun have show match with do then else if let in def theorem example namespace
+section variable universe instance structure class inductive where deriving by calc this mutual partial private protected
+export import prefix infix notation macro syntax set_option attribute local forall exists Type Prop Sort using extends
+abbrev opaque axiom noncomputable unsafe nomatch nofun return mut for unless try catch finally break continue""".split())
+
+
 class E:
     """a translated expression: Lean text, type, and whether the text is `Except String <type>`-valued"""
     __slots__ = ("text", "ty", "partial")
@@ -310,8 +316,12 @@ def _codes(s):
 
 
 class Tr:
-    def __init__(self, lean_name, env, ret_ty, externals=None, isinstance_map=None, attrs=None, consts=None, fuel=None):
+    def __init__(self, lean_name, env, ret_ty, externals=None, isinstance_map=None, attrs=None, consts=None, fuel=None,
+                 generic_exc=False):
         self.name = lean_name
+        # generic_exc: the function is abstracted over the exception type `ε` with `exc : String → ε` naming built-in classes
+        self.generic = generic_exc
+        self.exc_ty = "ε" if generic_exc else "String"
         self.env = dict(env)            # python variable -> type
         self.ret_ty = ret_ty
         self.externals = externals or {}
@@ -337,6 +347,13 @@ class Tr:
     def err(self, text):
         return "(.raise %s)" % text if self.in_loop else "(.error %s)" % text
 
+    def cls(self, name):
+        return '(exc "%s")' % name if self.generic else '"%s"' % name
+
+    def prim(self, text):
+        """a partial built-in of the prelude (raises a class NAME)"""
+        return "(Py.mapErr exc %s)" % text if self.generic else text
+
     def bind(self, e, var, body):
         """evaluate the (possibly partial) expression `e`, name it `var` (a pattern), continue with `body`"""
         if e.partial:
@@ -356,7 +373,7 @@ class Tr:
         text, ty = build(names)
         if not binds:
             return E(text, ty)
-        inner = "(Except.ok %s : Except String _)" % text
+        inner = "(Except.ok %s : Except EXC__ _)" % text
         for v, t in reversed(binds):
             inner = "(match %s with | .error e__ => Except.error e__ | .ok %s => %s)" % (t, v, inner)
         return E(inner, ty, True)
@@ -380,8 +397,8 @@ class Tr:
         """`a and b` / `a or b` on Bool-valued (already truthified) operands, `b` evaluated only if needed"""
         if not a.partial and not b.partial:
             return E("(%s %s %s)" % (a.text, "&&" if is_and else "||", b.text), BOOL)
-        bt = b.text if b.partial else "(Except.ok %s : Except String _)" % b.text
-        skip = "(Except.ok %s : Except String _)" % ("false" if is_and else "true")
+        bt = b.text if b.partial else "(Except.ok %s : Except EXC__ _)" % b.text
+        skip = "(Except.ok %s : Except EXC__ _)" % ("false" if is_and else "true")
         v = self.fresh()
         body = "(if %s then %s else %s)" % ((v, bt, skip) if is_and else (v, skip, bt))
         if a.partial:
@@ -525,9 +542,13 @@ class Tr:
     def subscript(self, e):
         x = self.expr(e.value)
         if isinstance(x.ty, tuple) and x.ty[0] == "Option" and isinstance(e.slice, ast.Constant) and ("[%r]" % (e.slice.value,)) in self.attrs:
-            # d["key"] on an optional record, through the spec's table
-            lean, ty = self.attrs["[%r]" % (e.slice.value,)]
-            return self.lift([x], lambda ts: (lean.format(ts[0]), ty))
+            # d["key"] on an optional record (None -> TypeError), result type from the spec's table
+            ty = self.attrs["[%r]" % (e.slice.value,)]
+            self.constructs.add("d[key] on an optional record (TypeError on None explicit)")
+            g = self.lift([x], lambda ts: (self.prim("(Py.optGet %s)" % ts[0]), ty))
+            if g.partial:
+                raise Untranslatable("partial operand in " + ast.unparse(e))
+            return E(g.text, ty, True)
         if not (isinstance(x.ty, tuple) and x.ty[0] == "List"):
             raise Untranslatable("subscript of a value of type %s" % lean_ty(x.ty))
         sl = e.slice
@@ -550,7 +571,7 @@ class Tr:
         i = self.expr(sl)
         self.need(i, INT, sl)
         self.constructs.add("index (IndexError explicit)")
-        g = self.lift([x, i], lambda ts: ("(Py.getItem %s %s)" % tuple(ts), x.ty[1]))
+        g = self.lift([x, i], lambda ts: (self.prim("(Py.getItem %s %s)" % tuple(ts)), x.ty[1]))
         if g.partial:   # operands were partial themselves: flatten Except (Except _)
             v = self.fresh()
             return E("(match %s with | .error e__ => Except.error e__ | .ok %s => %s)" % (g.text, v, v), x.ty[1], True)
@@ -654,7 +675,7 @@ class Tr:
             if not isinstance(cls, ast.Name):
                 raise Untranslatable("raise " + ast.unparse(s))
             self.constructs.add("raise")
-            return self.err('"%s"' % cls.id)
+            return self.err(self.cls(cls.id))
         if isinstance(s, ast.Break) and self.in_loop:
             return self.loop_break()
         if isinstance(s, ast.Continue) and self.in_loop:
@@ -684,7 +705,7 @@ class Tr:
                 v = self.expr(s.value, want=xs.ty[1])
                 self.need(v, xs.ty[1], s.value)
                 self.constructs.add("item assignment (IndexError explicit)")
-                g = self.lift([i, v], lambda ts: ("(Py.setItem %s %s %s)" % (xs.text, ts[0], ts[1]), xs.ty))
+                g = self.lift([i, v], lambda ts: (self.prim("(Py.setItem %s %s %s)" % (xs.text, ts[0], ts[1])), xs.ty))
                 if g.partial:
                     raise Untranslatable("partial operands in item assignment")
                 return self.bind(E(g.text, xs.ty, True), t.value.id, cont())
@@ -695,9 +716,9 @@ class Tr:
             if isinstance(xs.ty, tuple) and xs.ty[0] == "List":
                 self.constructs.add("list.pop (IndexError explicit)")
                 if not args:
-                    return self.bind(E("(Py.popLast %s)" % xs.text, None, True), "(_, %s)" % xs.text, cont())
+                    return self.bind(E(self.prim("(Py.popLast %s)" % xs.text), None, True), "(_, %s)" % xs.text, cont())
                 if len(args) == 1 and isinstance(args[0], ast.Constant) and args[0].value == 0:
-                    return self.bind(E("(Py.pop0 %s)" % xs.text, None, True), "(_, %s)" % xs.text, cont())
+                    return self.bind(E(self.prim("(Py.pop0 %s)" % xs.text), None, True), "(_, %s)" % xs.text, cont())
         if isinstance(s, ast.If):
             c = self.test(s.test)
             v = self.fresh() if c.partial else None
@@ -780,7 +801,7 @@ class Tr:
         binders = "".join(" (%s : %s)" % (v, lean_ty(self.env[v])) for v in free)
         sig = "def %s%s : %s → %sPy.Flow %s %s" % (
             fname, binders, _atom(lean_ty(it.ty)), "".join(_atom(lean_ty(self.env[v])) + " → " for v in state),
-            _atom(self._state_ty(state)), _atom(lean_ty(self.ret_ty)))
+            self.exc_ty + " " + _atom(self._state_ty(state)), _atom(lean_ty(self.ret_ty)))
         stpat = "".join(", " + v for v in state)
         self.aux.append("%s\n  | []%s => .fall %s\n  | %s :: rest__%s =>\n%s\n" % (
             sig, stpat, self._pat(state), self._pat(targets), stpat, _ind(body, 4)))
@@ -811,9 +832,9 @@ class Tr:
         binders = "".join(" (%s : %s)" % (x, lean_ty(self.env[x])) for x in free)
         sig = "def %s%s : Nat → %sPy.Flow %s %s" % (
             fname, binders, "".join(_atom(lean_ty(self.env[x])) + " → " for x in state),
-            _atom(self._state_ty(state)), _atom(lean_ty(self.ret_ty)))
+            self.exc_ty + " " + _atom(self._state_ty(state)), _atom(lean_ty(self.ret_ty)))
         stpat = "".join(", " + x for x in state)
-        self.aux.append("%s\n  | 0%s => .raise \"OutOfFuel\"\n  | fuel__ + 1%s =>\n%s\n" % (sig, stpat, stpat, _ind(body, 4)))
+        self.aux.append("%s\n  | 0%s => .raise OUTOFFUEL__\n  | fuel__ + 1%s =>\n%s\n" % (sig, stpat, stpat, _ind(body, 4)))
         call = "(%s)" % " ".join([fname] + free + ["(%s).toNat" % fuel.text] + state)
         return self._after(call, state, cont)
 
@@ -831,8 +852,14 @@ def translate_function(source, name, lean_name, cls=None, params=None, binders=N
     automatic `(p : T)` list (for functions abstracted over their environment). Returns (lean text, python source, constructs).
     """
     fn = find_function(source, name, cls)
+    pysrc = ast.get_source_segment(source, fn)
     if fn.args.vararg or fn.args.kwarg or fn.args.kwonlyargs or fn.args.defaults:
         raise Untranslatable("signature of " + name)
+    for n in ast.walk(fn):   # Python identifiers that are Lean keywords get a trailing underscore
+        if isinstance(n, ast.Name) and n.id in LEAN_KEYWORDS:
+            n.id += "_"
+        if isinstance(n, ast.arg) and n.arg in LEAN_KEYWORDS:
+            n.arg += "_"
     if params is None:
         params = {a.arg: ann_type(a.annotation) for a in fn.args.args if a.arg != "self"}
     ret_ty = ret if ret is not None else ann_type(fn.returns)
@@ -846,6 +873,9 @@ def translate_function(source, name, lean_name, cls=None, params=None, binders=N
         raise Untranslatable("%d fuel expression(s) of the spec unused: the while loops are gone" % len(tr.fuel))
     if binders is None:
         binders = " ".join("(%s : %s)" % (p, lean_ty(t)) for p, t in params.items())
+    if tr.generic and tr.aux:
+        raise Untranslatable("loops in a function abstracted over its exception type")
     out = "".join(a + "\n" for a in tr.aux)
-    out += "def %s %s : Except String %s :=\n%s\n" % (lean_name, binders, _atom(lean_ty(ret_ty)), _ind(body))
-    return out, ast.get_source_segment(source, fn), sorted(tr.constructs)
+    out += "def %s %s : Except %s %s :=\n%s\n" % (lean_name, binders, tr.exc_ty, _atom(lean_ty(ret_ty)), _ind(body))
+    out = out.replace("EXC__", tr.exc_ty).replace("OUTOFFUEL__", tr.cls("OutOfFuel"))
+    return out, pysrc, sorted(tr.constructs)
